@@ -365,10 +365,16 @@ func loneHeads(c *ctx, perHead int) {
 			// indefinite forms without an end, chunks of the wrong type, reserved additional information
 			for _, s := range [][]byte{{0x5f}, {0x7f}, {0x9f}, {0xbf}, {0x5f, 0x61, 0x61}, {0x7f, 0x41, 0x00, 0xff}, {0x9f, 0xff}, {0xbf, 0x01, 0xff},
 				{0x1c}, {0x1f}, {0x3f}, {0xdf}, {0xff}, {0xf8}, {0xf8, 0x00}, {0xfc}, {0xc2, 0x5b, 0xff, 0xff, 0xff, 0xff, 0xff, 0xff, 0xff, 0xff},
-				{0xc0, 0x7b, 0x7f, 0xff, 0xff, 0xff, 0xff, 0xff, 0xff, 0xff}, {0xc1, 0xfb}, {0xd9, 0xd9, 0xf7}} {
+				{0xc0, 0x7b, 0x7f, 0xff, 0xff, 0xff, 0xff, 0xff, 0xff, 0xff}, {0xc1, 0xfb}, {0xd9, 0xd9, 0xf7},
+				{0x5f, 0x40, 0xff}, {0x7f, 0x60, 0x60, 0xff}, {0x5f, 0x40, 0x41, 0x00, 0x40, 0xff}, {0x9f, 0x5f, 0x40, 0xff, 0xff}} {
 				for q := 0; q < perHead*3; q++ {
 					c.add(f, c.r.Intn(len(hx.Dests)), randOpts(c.r, f), s, "head:cbor-special")
 				}
+				// and on the walker paths: Raw, and the value of an unknown struct field
+				_, dr := hx.DestByName("Raw")
+				_, ds := hx.DestByName("SkipDst")
+				c.add(f, dr, randOpts(c.r, f), s, "head:cbor-special")
+				c.add(f, ds, randOpts(c.r, f), append(hx.MapStr(f, "zz"), s...), "head:cbor-special")
 			}
 		}
 	}
